@@ -17,6 +17,9 @@ use pyo3::prelude::*;
 use socket2::{Domain, Protocol, Socket, Type};
 use std::net::SocketAddr;
 use std::time::Duration;
+#[cfg(gufo_snmp_verif)]
+use crate::verif::Instant;
+#[cfg(not(gufo_snmp_verif))]
 use std::time::Instant;
 
 pub(crate) trait SnmpSocket
